@@ -269,8 +269,8 @@ func (e *env) setup() error {
 	e.cl = hcluster.New(sp.Dir)
 	e.cl.HTTP.Timeout = 120 * time.Second
 	opt := func(id string) hcluster.Options {
-		return hcluster.Options{ID: id, HeartbeatTimeout: 2 * time.Second, ElectionTimeout: 2 * time.Second,
-			LeaderLease: time.Second, SnapshotThreshold: 40, SnapshotInterval: 150 * time.Millisecond}
+		return hcluster.Options{ID: id, HeartbeatTimeout: 4 * time.Second, ElectionTimeout: 4 * time.Second,
+			LeaderLease: 4 * time.Second, SnapshotThreshold: 40, SnapshotInterval: 150 * time.Millisecond}
 	}
 	var err error
 	if e.ld, err = e.cl.Add(opt("n1"), true); err != nil {
